@@ -304,3 +304,35 @@ def c_metrics_scale(c):
         c.goal('scale-invariant', eq(c.cos(d1), c.cos(d2)))
     else:
         c.goal('scale-invariant', eq(d1, d2))
+
+
+# ---- integer-typed batches (seed C07-2).  The int/float dtype of a NumPy buffer is invisible to the symbolic engine (DESIGN 2.1):
+# "batch = single, row by row" is additionally checked at concrete points for integer-typed N-row inputs.  Concrete, never proved.
+_INT_BATCH = ('Tilt', 'Tilt.acc-only', 'SAAM', 'FAMC', 'FQA', 'QUEST', 'Davenport', 'FLAE')
+
+
+@contract('C07', 'integer-batch.concrete', variants=[dict(est=k, rep=r) for k in _INT_BATCH for r in
+                                                     (('quaternion', 'angles', 'rotmat') if k.startswith('Tilt') else ('quaternion',))],
+          concrete_points=[dict(s=1.0), dict(s=2.0), dict(s=3.0)], tol=1e-9,
+          functions=[k.split('.')[0] + '._compute_all' for k in _INT_BATCH])
+def c_int_batch(c):
+    """concrete points (NOT a proof): an integer-typed N-row batch gives, on each row, what the single-sample call gives on that row as floats"""
+    name, rep = c.p['est'], c.p['rep']
+    cls = getattr(c.ahrs.filters, name.split('.')[0])
+    rng = np.random.default_rng(int(c.real('s')))
+    # integer dtype, gravity mostly along +z, never exactly level (that pose is SAAM's recorded finding KF-C03-SAAM-level)
+    A = rng.integers(1, 5, (4, 3)) * rng.choice([-1, 1], (4, 3)); A[:, 2] = rng.integers(6, 12, 4)
+    M = rng.integers(-9, 10, (4, 3)); M[:, 0] = rng.integers(15, 25, 4); M[:, 2] = rng.integers(30, 45, 4)
+    kw = dict(representation=rep) if name.startswith('Tilt') else {}
+    if name == 'Tilt.acc-only':
+        batch = cls(acc=A.copy(), **kw).Q
+        rows = [cls().estimate(A[i].astype(float), None, **kw) for i in range(len(A))]
+    else:
+        batch = cls(acc=A.copy(), mag=M.copy(), **kw).Q
+        rows = [cls().estimate(A[i].astype(float), M[i].astype(float), **kw) for i in range(len(A))]
+    batch = np.asarray(batch)
+    c.goal('real', bool(np.all(np.abs(np.imag(batch)) <= 1e-12)))
+    batch = np.real(batch).astype(float)
+    c.goal('one-per-row', batch.shape[0] == len(A))
+    for i, r in enumerate(rows):
+        c.goal_eq(f'row{i}', batch[i], np.real(np.asarray(r)).astype(float))
